@@ -1,0 +1,70 @@
+//go:build verif
+
+package server
+
+// Contracts for connection dispatch (properties C08, C19), checked by /verif/govc.
+// Comment-only file: it adds nothing to any build.
+//
+// The ghost field consumed (declared with the assumed contract of net.Conn.Read) counts the bytes
+// taken from a connection's inbound stream.
+//
+//@ func TimeoutConn
+//@   inline
+//@   check safety
+//@   ensures result != nil && typeis(result, *timeoutConn) && fresh(unbox(result, *timeoutConn)) && unbox(result, *timeoutConn).Conn == conn
+//@   modifies nothing
+//
+//@ func (*timeoutConn).Read
+//@   check safety
+//@   requires 0 <= c.Conn.consumed && c.Conn.consumed < 1<<50
+//@   ensures 0 <= result0 && result0 <= len(b)
+//@   ensures c.Conn.consumed == old(c.Conn.consumed) + result0
+//@   modifies c.Conn.consumed, b[:]
+//
+//@ func PeekConnection
+//@   inline
+//@   check safety
+//@   ensures result != nil && fresh(result) && result.Conn == conn && len(result.buffer) == 0
+//@   modifies nothing
+//
+//@ func (*peekConnection).Peek
+//@   inline
+//@   check safety
+//@   requires 0 <= pc.Conn.consumed && pc.Conn.consumed < 1<<50
+//@   ensures 0 <= result0 && result0 <= len(p)
+//@   ensures [count] pc.Conn.consumed == old(pc.Conn.consumed) + result0
+//@   ensures [kept] len(pc.buffer) == old(len(pc.buffer)) + result0
+//@   modifies pc.Conn.consumed, p[:], pc.buffer, pc.buffer[:]
+//
+//@ func (*peekConnection).Read
+//@   check safety
+//@   requires 0 <= pc.Conn.consumed && pc.Conn.consumed < 1<<50 && disjoint(p, pc.buffer)
+//@   ensures 0 <= n && n <= len(p)
+//@   ensures [replay-first] old(len(pc.buffer)) > 0 ==> err == nil && pc.Conn.consumed == old(pc.Conn.consumed) && len(pc.buffer) == old(len(pc.buffer)) - n && (n == len(p) || n == old(len(pc.buffer)))
+//@   ensures [replay-bytes] old(len(pc.buffer)) > 0 ==> (forall i int :: 0 <= i && i < n ==> p[i] == old(pc.buffer[i]))
+//@   ensures [replay-rest] old(len(pc.buffer)) > 0 ==> (forall i int :: 0 <= i && i < len(pc.buffer) ==> pc.buffer[i] == old(pc.buffer[n+i]))
+//@   ensures [then-stream] old(len(pc.buffer)) == 0 ==> pc.Conn.consumed == old(pc.Conn.consumed) + n && len(pc.buffer) == 0
+//@   modifies pc.Conn.consumed, p[:], pc.buffer
+//
+//@ func compareAddr
+//@   check safety
+//@   ensures [tcp] typeis(addr1, *net.TCPAddr) && typeis(addr2, *net.TCPAddr) && result ==> unbox(addr1, *net.TCPAddr).Port == unbox(addr2, *net.TCPAddr).Port
+//@   ensures [udp] typeis(addr1, *net.UDPAddr) && typeis(addr2, *net.UDPAddr) && result ==> unbox(addr1, *net.UDPAddr).Port == unbox(addr2, *net.UDPAddr).Port
+//@   ensures [kind] result ==> (typeis(addr1, *net.TCPAddr) && typeis(addr2, *net.TCPAddr)) || (typeis(addr1, *net.UDPAddr) && typeis(addr2, *net.UDPAddr))
+//@   ensures [wild-tcp] typeis(addr1, *net.TCPAddr) && typeis(addr2, *net.TCPAddr) && unbox(addr1, *net.TCPAddr).Port == unbox(addr2, *net.TCPAddr).Port && (unbox(addr1, *net.TCPAddr).IP == nil || unbox(addr2, *net.TCPAddr).IP == nil) ==> result
+//@   ensures [wild-udp] typeis(addr1, *net.UDPAddr) && typeis(addr2, *net.UDPAddr) && unbox(addr1, *net.UDPAddr).Port == unbox(addr2, *net.UDPAddr).Port && (unbox(addr1, *net.UDPAddr).IP == nil || unbox(addr2, *net.UDPAddr).IP == nil) ==> result
+//@   modifies nothing
+//
+//@ func (*Honeytrap).findService
+//@   check safety
+//@   requires conn != nil && 0 <= conn.consumed && conn.consumed < 1<<50
+//@   requires forall k net.Addr, i int :: 0 <= i && i < len(hc.ports[k]) ==> hc.ports[k][i] != nil
+//@   ensures [none] result2 != nil ==> result0 == nil && result1 == nil
+//@   ensures [some] result2 == nil ==> result0 != nil && result1 != nil
+//@   ensures [stream-raw] result2 == nil && result1 == conn ==> conn.consumed == old(conn.consumed)
+//@   ensures [stream-peeked] result2 == nil && result1 != conn ==> typeis(result1, *peekConnection) && len(unbox(result1, *peekConnection).buffer) == conn.consumed - old(conn.consumed)
+//@   modifies *
+//@   loop 1: invariant forall i int :: 0 <= i && i < len(serviceCandidates) ==> serviceCandidates[i] != nil
+//@   loop 2: invariant 0 <= n && n <= 1024
+//@   loop 2: invariant peekUninitialized ==> conn.consumed == old(conn.consumed)
+//@   loop 2: invariant !peekUninitialized ==> pConn != nil && fresh(pConn) && len(pConn.buffer) == conn.consumed - old(conn.consumed)
